@@ -233,10 +233,11 @@ enum Item {
     Param,
 }
 
-fn parse_template(t: &str) -> HashMap<usize, (String, Vec<Item>)> {
-    let mut m = HashMap::new();
+fn parse_template(t: &str) -> Vec<(String, usize, String, Vec<Item>)> {
+    let mut m = Vec::new();
     for ent in t.split(';').filter(|e| !e.is_empty()) {
         let (p, rest) = ent.split_once('=').unwrap();
+        let (rule, alt) = p.split_once('.').unwrap();
         let (lab, items) = rest.split_once(':').unwrap();
         let items = items
             .split(',')
@@ -250,47 +251,82 @@ fn parse_template(t: &str) -> HashMap<usize, (String, Vec<Item>)> {
                 _ => panic!("item"),
             })
             .collect();
-        m.insert(p.parse().unwrap(), (unhex(lab), items));
+        m.push((unhex(rule), alt.parse().unwrap(), unhex(lab), items));
     }
     m
 }
 
-type AFn<'a, 'b, 'input> = dyn Fn(RIdx<u32>, &'b dyn NonStreamingLexer<'input, LT>, Span, std::vec::Drain<AStackType<Lx, String>>, u64) -> String + 'a;
+/// production index of the `alt`-th alternative of rule `name`
+fn resolve_template(grm: &YaccGrammar<u32>, t: &[(String, usize, String, Vec<Item>)]) -> HashMap<usize, (String, Vec<Item>)> {
+    let mut m = HashMap::new();
+    for (rule, alt, lab, items) in t {
+        if let Some(ridx) = grm.rule_idx(rule) {
+            if let Some(pidx) = grm.rule_to_prods(ridx).get(*alt) {
+                m.insert(usize::from(*pidx), (lab.clone(), items.clone()));
+            }
+        }
+    }
+    m
+}
 
+/// action values at run time: (id of the reduction, rule of the reduction, rendered value)
+type AV = (usize, u32, String);
+type AFn<'a, 'b, 'input> = dyn Fn(RIdx<u32>, &'b dyn NonStreamingLexer<'input, LT>, Span, std::vec::Drain<AStackType<Lx, AV>>, u64) -> AV + 'a;
+
+/// parse_actions with one hand-written closure per production that (a) computes the value the
+/// self-describing generated action must compute and (b) logs the reduction (production, span,
+/// drained stack entries) for the Coq model of the wrapper to re-evaluate.
 fn run_actions<'b, 'input: 'b>(
     grm: &YaccGrammar<u32>,
     pb: &RTParserBuilder<u32, LT>,
     lexer: &'b dyn NonStreamingLexer<'input, LT>,
     tpl: &HashMap<usize, (String, Vec<Item>)>,
     param: u64,
-) -> (Option<String>, Vec<lrpar::LexParseError<u32, LT>>) {
+) -> (Option<String>, Vec<lrpar::LexParseError<u32, LT>>, String) {
+    let log: std::cell::RefCell<Vec<String>> = std::cell::RefCell::new(Vec::new());
+    let logr = &log;
     let mut boxed: Vec<Box<AFn<'_, 'b, 'input>>> = Vec::new();
     for pidx in grm.iter_pidxs() {
         let p = usize::from(pidx);
         let syms: Vec<Symbol<u32>> = grm.prod(pidx).to_vec();
         let ent = tpl.get(&p).cloned();
-        boxed.push(Box::new(move |_ridx, lexer, span, args, param| {
+        boxed.push(Box::new(move |ridx, lexer, span, args, param| {
+            use lrpar::Lexeme;
+            let drained: Vec<AStackType<Lx, AV>> = args.collect();
+            let mut entry = format!("{}@{}-{}:", p, span.start(), span.end());
+            entry.push_str(
+                &drained
+                    .iter()
+                    .map(|a| match a {
+                        AStackType::Lexeme(l) => format!("L{}.{}.{}.{}", l.tok_id(), l.span().start(), l.span().len(), if l.faulty() { 1 } else { 0 }),
+                        AStackType::ActionType((id, r, _)) => format!("V{}.{}", r, id),
+                    })
+                    .collect::<Vec<_>>()
+                    .join(","),
+            );
             // the run-time meaning of the generated wrapper + action: the i-th drained
             // element is the value of the production's i-th symbol
-            let vals: Vec<String> = args
+            let vals: Vec<String> = drained
+                .into_iter()
                 .zip(syms.iter())
                 .map(|(a, sy)| match (a, sy) {
                     (AStackType::Lexeme(l), Symbol::Token(_)) => {
-                        use lrpar::Lexeme;
                         let r = if l.faulty() { Err(l) } else { Ok(l) };
                         gv::t(lexer, &r)
                     }
-                    (AStackType::ActionType(s), Symbol::Rule(_)) => s,
+                    (AStackType::ActionType((_, _, s)), Symbol::Rule(_)) => s,
                     _ => "KINDMISMATCH".to_string(),
                 })
                 .collect();
-            match &ent {
-                None => vals.first().cloned().unwrap_or_default(), // start production: pass the value through
+            let v = match &ent {
+                None => vals.first().cloned().unwrap_or_default(),
                 Some((label, items)) => {
                     let its: Vec<String> = items
                         .iter()
                         .map(|it| match it {
-                            Item::Arg(k) => vals.get(k - 1).cloned().unwrap_or_else(|| "NOARG".to_string()),
+                            Item::Arg(k) => {
+                                if *k >= 1 { vals.get(k - 1).cloned().unwrap_or_else(|| "NOARG".to_string()) } else { "NOARG".to_string() }
+                            }
                             Item::Span => gv::s(span),
                             Item::SpanStr => gv::x(lexer, span),
                             Item::Dollar => "$".to_string(),
@@ -299,11 +335,22 @@ fn run_actions<'b, 'input: 'b>(
                         .collect();
                     gv::node(label, &its)
                 }
-            }
+            };
+            let mut lg = logr.borrow_mut();
+            let id = lg.len();
+            lg.push(entry);
+            (id, u32::from(ridx), v)
         }));
     }
     let refs: Vec<&AFn<'_, 'b, 'input>> = boxed.iter().map(|b| &**b).collect();
-    pb.parse_actions(lexer, &refs, param)
+    let (v, es) = pb.parse_actions(lexer, &refs, param);
+    let lg = log.borrow();
+    let red = format!(
+        "RED {} {}",
+        if lg.is_empty() { "-".to_string() } else { lg.join(";") },
+        v.as_ref().map(|x| x.0.to_string()).unwrap_or_else(|| "-".to_string())
+    );
+    (v.map(|x| x.2), es, red)
 }
 
 fn mode_rt(line: &str) -> String {
@@ -316,11 +363,12 @@ fn mode_rt(line: &str) -> String {
     let kind = kv(opts, "yk").unwrap().to_string();
     let rec = kv(opts, "rec").unwrap_or("C").to_string();
     let par: u64 = kv(opts, "par").and_then(|p| p.parse().ok()).unwrap_or(0);
-    let tpl = parse_template(&unhex(kv(opts, "tpl").unwrap_or("")));
+    let tpl0 = parse_template(&unhex(kv(opts, "tpl").unwrap_or("")));
     let r = catch(move || -> Result<String, String> {
         let grm = YaccGrammar::<u32>::new_with_storaget(yk(&kind), &ysrc)
             .map_err(|e| format!("grammar: {}", e.iter().map(|x| format!("{}", x)).collect::<Vec<_>>().join("; ")))?;
         let (_sg, st) = from_yacc(&grm, Minimiser::Pager).map_err(|e| format!("table: {}", e))?;
+        let tpl = resolve_template(&grm, &tpl0);
         let mut ld = LRNonStreamingLexerDef::<LT>::from_str(&lsrc)
             .map_err(|e| format!("lexer: {}", e.iter().map(|x| format!("{}", x)).collect::<Vec<_>>().join("; ")))?;
         let map: HashMap<&str, u32> = grm.tokens_map().iter().map(|(n, t)| (*n, u32::from(*t))).collect();
@@ -344,6 +392,36 @@ fn mode_rt(line: &str) -> String {
         toks.sort();
         out.push_str(" TOKS ");
         out.push_str(&toks.iter().map(|(n, t)| format!("{}={}", hex(n), t)).collect::<Vec<_>>().join(","));
+        out.push_str(" PRODS ");
+        out.push_str(
+            &grm.iter_pidxs()
+                .map(|p| {
+                    let syms = grm.prod(p);
+                    if syms.is_empty() {
+                        "e".to_string()
+                    } else {
+                        syms.iter()
+                            .map(|s| match s {
+                                Symbol::Token(t) => (2 * usize::from(*t)).to_string(),
+                                Symbol::Rule(r) => (2 * usize::from(*r) + 1).to_string(),
+                            })
+                            .collect::<Vec<_>>()
+                            .join(",")
+                    }
+                })
+                .collect::<Vec<_>>()
+                .join(";"),
+        );
+        out.push_str(" PMAP ");
+        out.push_str(
+            &grm.iter_rules()
+                .flat_map(|r| {
+                    let name = hex(grm.rule_name_str(r));
+                    grm.rule_to_prods(r).iter().enumerate().map(move |(i, p)| format!("{}={}.{}", usize::from(*p), name, i)).collect::<Vec<_>>()
+                })
+                .collect::<Vec<_>>()
+                .join(","),
+        );
         write!(out, " MISSING {} {}", mfl.map(|s| s.len()).unwrap_or(0), mfp.map(|s| s.len()).unwrap_or(0)).unwrap();
         let rk = if rec == "N" { RecoveryKind::None } else { RecoveryKind::CPCTPlus };
         let pb = RTParserBuilder::<u32, LT>::new(&grm, &st).recoverer(rk);
@@ -355,8 +433,8 @@ fn mode_rt(line: &str) -> String {
                 let (v, es) = pb.parse_map(&lexer, &|lexeme| Node::Term { lexeme }, &|ridx, nodes| Node::Nonterm { ridx, nodes });
                 write!(out, " | {} | {}", gv::val_tree(&v), gv::errs(&es)).unwrap();
             } else {
-                let (v, es) = run_actions(&grm, &pb, &lexer, &tpl, par);
-                write!(out, " | {} | {}", gv::val_string(&v), gv::errs(&es)).unwrap();
+                let (v, es, red) = run_actions(&grm, &pb, &lexer, &tpl, par);
+                write!(out, " | {} | {} | {}", gv::val_string(&v), gv::errs(&es), red).unwrap();
             }
         }
         Ok(out)
